@@ -1,3 +1,3 @@
-// archive stack, part 6 of 6: mechanically generated type grid (see a.inc, grid.h)
+// archive stack, part 6: maps over every kind of key type (see a.inc)
 #define C09_A_PART 6
 #include "a.inc"
